@@ -341,3 +341,63 @@ CHECKS["C17"] = dict(
     bounds=dict(quick="source lengths / capacities 0..9, fixpoint", thorough="0..17"),
     floor=dict(transitions=dict(quick=100000, thorough=300000)),
 )
+
+# ----------------------------------------------------------------------------------------------- C12 / C13
+c12 = B("c12", "checks/c12_variant.cpp", "gcc")
+c12_asan = B("c12_asan", "checks/c12_variant.cpp", "asan")
+
+
+def jobs_c12(tier):
+    return [job(c12, "--tier", tier), job(c12_asan, "--tier", tier)]
+
+
+CHECKS["C12"] = dict(
+    engine="lifetime-lab", level="model_checking", jobs=jobs_c12,
+    level_text="explicit-state search to fixpoint over three interacting variants (two Variant<TrA,TrB,Conv>, one "
+               "Variant<TrA,TrB>; TrB's constructors can be armed to throw, Conv is constructible from a non-element type): "
+               "every reachable (index,value)^3 state is expanded with every operation (element / converting / EmptyVariant "
+               "assignment, copy and move assignment incl. self and cross-variant, Become(-2..7), destroy-and-reconstruct by "
+               "copy/move/value/conversion/EmptyVariant, throwing assignment / copy / Become, observation); after each "
+               "operation index and value are compared with an (index,value) reference model, Visit must call the visitor "
+               "once with the active alternative (const and non-const), get<T>/get<I>/is<T>/empty must agree with index(), "
+               "the lifetime registry must hold exactly one live element per non-empty variant, and after teardown none",
+    level_note="element types register every construction/destruction by address (construct-over-live, double destroy, use "
+               "of a dead object are violations); moved-from elements are 'alive, value unspecified' in the model; g++ "
+               "and clang ASan+UBSan builds",
+    technique="explicit-state model checking of the implementation against a reference model (BFS over operation histories replayed on fresh objects, fixpoint)",
+    rule="states = distinct model states (index:value per variant) reached; transitions = operations executed on real variants and compared",
+    assumptions=R_ASSUME[1:],
+    bounds=dict(quick="fixpoint (values {1,2}; 3 variants)", thorough="same search on both builds"),
+    floor=dict(transitions=dict(quick=20000, thorough=20000)),
+)
+ENGINES.append(dict(name="lifetime-lab", path="checks/c12_variant.cpp, checks/c13_optional.cpp, checks/c15_handles.cpp",
+                    serves_properties=["C12", "C13", "C15"],
+                    kind_free_text="explicit-state search over value-type operation histories with lifetime-tracking elements"))
+
+c13 = B("c13", "checks/c13_optional.cpp", "gcc")
+c13_asan = B("c13_asan", "checks/c13_optional.cpp", "asan")
+
+
+def jobs_c13(tier):
+    return [job(c13, "--tier", tier), job(c13_asan, "--tier", tier)]
+
+
+CHECKS["C13"] = dict(
+    engine="lifetime-lab", level="model_checking", jobs=jobs_c13,
+    level_text="explicit-state search to fixpoint over {Optional<Tr> o1,o2; Entry<Tr,7> e; Optional<int> oi} and over "
+               "{Result<E,Tr> r1,r2; Result<E,void> rv}: every reachable state is expanded with every operation (lvalue / "
+               "rvalue / converting assignment, copy and move assignment incl. self and Optional<U>, clear, take, every "
+               "constructor incl. InPlace and converting, value/error/None assignment) and compared with option / three-"
+               "state-sum reference models (moved-from by assignment == empty); empty()/bool/has_value/has_error/error()/get "
+               "must report the model state and the lifetime registry exactly one live value per engaged object, none after "
+               "teardown. Plus: all 18 relational operators in four operand shapes x 16 operand-state pairs against the total "
+               "order 'empty < every value', and GetErrorMessage for every ErrorStatus 0..18 and five out-of-range values",
+    level_note="the state of the source of a move *construction* is left open by the property (emptied or moved-from value) "
+               "and adopted from the implementation; g++ and clang ASan+UBSan builds",
+    technique="explicit-state model checking of the implementation against a reference model (BFS, fixpoint) + exhaustive operand enumeration",
+    rule="states = distinct model states reached in the two worlds; transitions = operations executed on real objects and "
+         "compared; relational/message cases are distinct by construction",
+    assumptions=R_ASSUME[1:],
+    bounds=dict(quick="fixpoint (values {1,2}, errors {None,1,200})", thorough="same on both builds"),
+    floor=dict(transitions=dict(quick=10000, thorough=10000)),
+)
